@@ -31,6 +31,7 @@
  *   seed <u64>
  *   tty <0|1>                    is stdin a terminal
  *   tty1 <0|1>, tty2 <0|1>       is stdout / stderr a terminal (default: ask the kernel)
+ *   stdinkind <1..4>             fstat(0) reports a regular file / fifo / character device / socket
  *   stdin <hex>                  synthetic stdin content ("-" for empty)
  *   path <hex>                   the planned path
  *   file <hex>                   content served for the planned path through a memfd
@@ -71,6 +72,8 @@ static int eof_latched[C_N];
 static int active = -1; /* -1 unknown, 0 off, 1 on */
 static uint64_t rng_state = 0x9E3779B97F4A7C15ull;
 static int tty0 = 0, tty1 = -1, tty2 = -1; /* -1: ask the real kernel */
+static mode_t stdin_mode(void);
+static int stdin_kind = 0; /* 0: as the kernel says (a pipe), 1 regular file, 2 fifo, 3 character device, 4 socket */
 static unsigned char *sin_buf; static size_t sin_len, sin_pos;
 static char *plan_path; static size_t plan_path_len;
 static unsigned char *file_buf; static size_t file_len; static int have_file;
@@ -137,6 +140,7 @@ static void parse_plan(char *text) {
         if (!w) continue;
         if (!strcmp(w, "seed")) { char *a = strtok_r(NULL, " ", &sp); if (a) rng_state = strtoull(a, NULL, 10); }
         else if (!strcmp(w, "tty")) { char *a = strtok_r(NULL, " ", &sp); if (a) tty0 = atoi(a); }
+        else if (!strcmp(w, "stdinkind")) { char *a = strtok_r(NULL, " ", &sp); if (a) stdin_kind = atoi(a); }
         else if (!strcmp(w, "tty1")) { char *a = strtok_r(NULL, " ", &sp); if (a) tty1 = atoi(a); }
         else if (!strcmp(w, "tty2")) { char *a = strtok_r(NULL, " ", &sp); if (a) tty2 = atoi(a); }
         else if (!strcmp(w, "stdin")) { char *a = strtok_r(NULL, " ", &sp); if (a) sin_buf = unhex(a, &sin_len); }
@@ -382,8 +386,18 @@ static int stat_event(long *size_override, int *err) {
     logf_("@S kind=truthful\n");
     return 0;
 }
-int statx(int dirfd, const char *path, int flags, unsigned int mask, struct statx *stx) {
+int statx(int dirfd, const char *path_arg, int flags, unsigned int mask, struct statx *stx) {
     ensure_init();
+    /* glibc declares the path of statx as nonnull, so the compiler may drop NULL checks on it; std does call
+     * statx(0, NULL, 0, STATX_ALL, NULL) as an availability probe. Launder the pointer before testing it. */
+    const char *path = path_arg;
+    __asm__ volatile("" : "+r"(path));
+    if (active == 1 && dirfd == 0 && (path == NULL || !*path) && stdin_kind > 0 && stx != NULL) {
+        int r = (int)syscall(SYS_statx, dirfd, path, flags, mask, stx);
+        if (r == 0) { stx->stx_mode = (uint16_t)stdin_mode(); stx->stx_size = stdin_kind == 1 ? (uint64_t)sin_len : 0; }
+        logf_("@S fd=0 kind=stdinkind%d\n", stdin_kind);
+        return r;
+    }
     int planned = active == 1 && ((planned_fd >= 0 && dirfd == planned_fd && (path == NULL || !*path)) || is_planned(path));
     long so = -1; int err = 0;
     if (planned && stat_event(&so, &err)) { errno = err; return -1; }
@@ -391,8 +405,18 @@ int statx(int dirfd, const char *path, int flags, unsigned int mask, struct stat
     if (planned && r == 0 && so >= 0) stx->stx_size = (uint64_t)so;
     return r;
 }
+static mode_t stdin_mode(void) {
+    switch (stdin_kind) { case 1: return S_IFREG | 0644; case 2: return S_IFIFO | 0600; case 3: return S_IFCHR | 0620; case 4: return S_IFSOCK | 0600; default: return 0; }
+}
 int fstat(int fd, struct stat *st) {
     ensure_init();
+    if (active == 1 && fd == 0 && stdin_kind > 0) {
+        /* what kind of object the synthetic stdin claims to be; its content does not depend on it */
+        int r = (int)syscall(SYS_fstat, fd, st);
+        if (r == 0) { st->st_mode = stdin_mode(); st->st_size = stdin_kind == 1 ? (off_t)sin_len : 0; }
+        logf_("@S fd=0 kind=stdinkind%d\n", stdin_kind);
+        return r;
+    }
     int planned = active == 1 && planned_fd >= 0 && fd == planned_fd;
     long so = -1; int err = 0;
     if (planned && stat_event(&so, &err)) { errno = err; return -1; }
